@@ -62,6 +62,7 @@ class Model:
 
     def __init__(self, rec):
         self.rec = rec
+        self._cache = {}
         self.inst = inst_of(rec)
         self.P, self.K = rec["P"], rec["K"]
         self.order = [tuple(g) for g in rec["order"]]
@@ -83,24 +84,42 @@ class Model:
         self.ctx = {"m": rec["m"], "pat": rec["pat"], "P": rec["P"], "Fn": rec["Fn"]}
 
     def post(self, i):
-        return Fraction(self.J[i], self.total)
+        c = self._cache.get(("p", i))
+        if c is None:
+            c = self._cache[("p", i)] = Fraction(self.J[i], self.total)
+        return c
 
     def supp(self, gt):
-        s = set(gt)
-        return Fraction(sum(j for g, j in zip(self.order, self.J) if set(g) == s), self.total)
+        s = frozenset(gt)
+        c = self._cache.get(("s", s))
+        if c is None:
+            c = self._cache[("s", s)] = Fraction(sum(j for g, j in zip(self.order, self.J) if set(g) == s), self.total)
+        return c
 
     def supp_indices(self, gt):
         s = set(gt)
         return [i for i, g in enumerate(self.order) if set(g) == s]
 
     def afp(self, a):
-        return Fraction(self.fnum[a], self.P * self.total)
+        c = self._cache.get(("f", a))
+        if c is None:
+            c = self._cache[("f", a)] = Fraction(self.fnum[a], self.P * self.total)
+        return c
 
     def acp(self, a):
-        return Fraction(self.fnum[a], self.total)
+        c = self._cache.get(("c", a))
+        if c is None:
+            c = self._cache[("c", a)] = Fraction(self.fnum[a], self.total)
+        return c
 
     def aop(self, a):
-        return Fraction(self.onum[a], self.total)
+        c = self._cache.get(("o", a))
+        if c is None:
+            c = self._cache[("o", a)] = Fraction(self.onum[a], self.total)
+        return c
+
+    def drop_cache(self):
+        self._cache = {}
 
     def self_check(self):
         assert sum(self.J) == self.total, "model table does not sum to total"
@@ -449,7 +468,7 @@ def check_cli_output(ck, text, seen, R, cfgname, loci, cells, index, sname):
 
 
 def run_cli(ck, models, rnd, tier):
-    variants = 2 if tier == "quick" else 6
+    variants = 2 if tier == "quick" else 3
     configs, loci, cells, index, sname = build_cli_dataset(ck, models, rnd, variants)
     rsets = report_sets(tier, rnd)
     tasks, meta = [], []
@@ -468,7 +487,10 @@ def run_cli(ck, models, rnd, tier):
         parsed, events, path = check_cli_output(ck, rr["result"]["stdout"], rr["result"]["seen"], R, cfgname, loci, cells, index, sname)
         outs[(cfgname, tuple(R))] = (parsed, path)
         for kk, ev in events.items():
-            all_events.setdefault(kk + (cfgname,), []).append(ev)
+            lst = all_events.setdefault(kk + (cfgname,), [])
+            sig = {k: v for k, v in ev.items() if k != "R"}
+            if not any({k: v for k, v in e.items() if k != "R"} == sig for e in lst):
+                lst.append(ev)      # identical printed values for another R add nothing to the trace
         ck.traces += 1
     # report-set independence: common FORMAT fields across runs of the same dataset
     for cfgname in configs:
@@ -483,8 +505,18 @@ def run_cli(ck, models, rnd, tier):
                     continue
                 k = index[cell[0]]
                 M = cells[k][[pf for pf, n in sname.items() if n == cell[1]][0]]
+                tie = False
+                if p0 != p1 and s.get("GT") != b.get("GT"):
+                    # different maximisers reported by the two paths: legitimate only for (near-)ties; then the support
+                    # statistics refer to different allele sets and are not comparable across the two runs
+                    gi, gj = rank([int(x) for x in s["GT"].split("/")]), rank([int(x) for x in b["GT"].split("/")])
+                    tie = M.J[gi] >= M.jmax * (1 - 4 * M.rel32) and M.J[gj] >= M.jmax * (1 - 4 * M.rel32)
+                    if tie:
+                        ck.bump("cross_path_tie_cells")
                 for fld in set(s) & set(b):
                     if s[fld] == b[fld]:
+                        continue
+                    if tie and fld in ("SPM", "SQ", "MEC", "MECP"):
                         continue
                     ok = False
                     if p0 != p1:   # streaming vs array path: single precision rounding may move the third decimal
@@ -664,6 +696,8 @@ def main():
                 ck.sample({"kind": "instance", "mode": mode, "inst": gmodels[keys[len(keys) // 3]].inst,
                            "model_total_J": str(gmodels[keys[len(keys) // 3]].total)})
             log("API replay %s %s done" % (glabel, mode))
+        for M in gmodels.values():
+            M.drop_cache()
     ck.note("instances", len(models))
     keys = sorted(models)
     ck.traces += len(models)
@@ -720,6 +754,7 @@ def main():
     # ---- binding demonstration: corrupted traces must be rejected --------------------
     bad_cases, expect = [], []
     if cases:
+        cases.sort(key=lambda c: 0 if sum(1 for e in c if e["op"] == "visit1") >= 3 else 1)   # a case with several genotypes first
         c = json.loads(json.dumps(cases[0]))
         v = [e for e in c if e["op"] == "visit1"]
         if len(v) > 1:
